@@ -45,8 +45,8 @@ CHECKS = {
     "C06": ("hist", "exploration", "2.C06",
             "pairs of histories denoting the same graph; operator== oracle with one-element perturbations",
             "Builds the same denoted graph by two different random histories (the second repaired to the target by a shuffled sequence of removals/additions/relabelings) and a "
-            "straight build; demands == in both operand orders, != as negation, reflexivity, equal copies; then perturbs a copy by exactly one edge / label / vertex and demands "
-            "inequality while the source stays equal and unchanged. All eight classes.",
+            "straight build; for every pair (also copies, and copies perturbed by exactly one extra / missing / moved edge, label or vertex) the verdict is computed from the two graphs' observable "
+            "state and compared with ==, != in both operand orders; the source of a mutated copy keeps its exact observable state. All eight classes.",
             "Trusted: model used to compute the repair, sanitizers."),
     "C07": ("reject", "fault_enumeration", "2.C07",
             "exhaustive rejected-call matrix with exception-type ladder and before/after snapshots, under ASan+UBSan+_GLIBCXX_ASSERTIONS",
@@ -60,8 +60,8 @@ CHECKS = {
             "exhaustive enumeration of small graphs x insertion orders with iteration oracles",
             "Every directed graph on <=3 (thorough 4) and undirected graph on <=4 (5) vertices with loops, each in 5 insertion orders, plus random larger graphs, for all eight classes: "
             "vertex range-for, edges() by pre-/post-increment and range-for (same sequence, twice), begin()==end() iff no edge, multiset equal to the model, and every "
-            "edge-enumerating operation (in-degrees, matrix, reversal, conversions, writers, operator<<) defined and agreeing with the model. Zero-vertex and edgeless graphs are "
-            "counted in the evidence.",
+            "edge-enumerating operation (in-degrees, matrix, reversal, conversions, writers, operator<<) defined (returns normally) on every shape, also after the graph is mutated "
+            "between two traversals. Zero-vertex and edgeless graphs are counted in the evidence.",
             "Trusted: enumeration code, model, sanitizers. Exhaustive only up to the stated sizes."),
     "C09": ("shape", "exploration", "2.C09",
             "independently built expectations for reversal / conversions / constructors / copies on enumerated graphs",
@@ -122,7 +122,8 @@ CHECKS = {
     "C19": ("paths", "exploration", "2.C19",
             "work counters on wrapper graph types (logical steps, never wall-clock) over families with exponentially many shortest paths",
             "Wrapper types derive from the real classes and shadow getOutNeighbours with a counter that throws at bound+1; the stated bounds V, V+E, V+E+1 are enforced exactly on "
-            "layered graphs (up to 4^40 shortest paths), grids, DAGs, cliques, zero-weight cycles and random graphs, with results cross-checked on the same run.",
+            "layered graphs (up to 4^40 shortest paths), grids, DAGs, cliques, shortcut-triangle chains, zero-weight cycles, graphs with forced duplicate edges and random graphs. "
+            "Only the scan count is judged (wrong answers are C11/C12's verdict).",
             "Trusted: the wrapper sees every neighbourhood scan because the searches are templates over the graph type and call getOutNeighbours on it."),
 }
 
